@@ -918,3 +918,72 @@ def update_bookkeeping(vk, cfg):
                     bad = f"Mesh.update(points=({npoints}, 2), cells={cells_.tolist()}): points_without_cells={list(m.points_without_cells)} (expected {unused}), cells_per_point={cpp}"
                 ok = ok and good
     vk.bounded_standin("update: points without / with cells, cells per point, sizes", f"all connectivity arrays of {ncells} triangle(s) on <= 6 points up to rotation of the local numbering" + (": " + bad if bad else ""), n, bool(ok), detail=bad)
+
+
+# ================================================================================================ options of update / copy
+@contract("C16", "update_copy_options", configs=[dict(op="update(callback=)", ct=ct) for ct in ("quad", "tetra")] + [dict(op="copy(cells=, cell_type=)", ct=ct) for ct in ("quad", "tetra")])
+def update_copy_options(vk, cfg):
+    """DiscreteGeometry.update(callback=): "a callable which is called after the mesh is updated" -- called exactly once,
+    with the mesh, and at that moment points / cell type AND the bookkeeping (sizes, points without cells) are already
+    the new ones; also when nothing but the callback is given.  DiscreteGeometry.copy(points=, cells=, cell_type=):
+    "return a deepcopy" updated with what is given: the copy carries the given cells / cell type and its own
+    bookkeeping, everything else equals the original, nothing is shared with it and the original is untouched"""
+    ct, op = cfg["ct"], cfg["op"]
+    dim = cells.DIM[ct]
+    vk.real(DG.DiscreteGeometry.update)
+    mesh = make_mesh(vk, ct, 2)
+    P0, C0 = snap(vk, mesh)
+    n = len(P0)
+    if op.startswith("update"):
+        newP = vk.reals("Pn", (n + 1, dim), near=0.37 * np.arange((n + 1) * dim, dtype=float).reshape(n + 1, dim), spread=0.05)
+        log = []
+
+        def cb(arg):
+            log.append(dict(arg=arg, npoints=arg.npoints, ndof=arg.ndof, ncells=arg.ncells, unused=ids(arg.points_without_cells), points=arg.points, cell_type=arg.cell_type))
+
+        ret = mesh.update(points=newP, cell_type=ct + "-renamed", callback=cb)
+        ensures_same(vk, "update(callback=)/in-place(returns None)", ret is None, True)
+        ensures_same(vk, "update(callback=)/called exactly once", len(log), 1)
+        if log:
+            rec = log[0]
+            ensures_same(vk, "update(callback=)/called with the mesh", rec["arg"] is mesh, True)
+            ensures_same(vk, "update(callback=)/called AFTER the update: points and cell type are the new ones", (rec["points"] is newP, rec["cell_type"]), (True, ct + "-renamed"))
+            ensures_same(vk, "update(callback=)/called AFTER the update: sizes and points without cells are the new ones", (rec["npoints"], rec["ndof"], rec["ncells"], rec["unused"]), (n + 1, (n + 1) * dim, len(C0), [n]))
+        vk.ensures_eq("update(callback=)/points==given points", mesh.points, newP)
+        ensures_same(vk, "update(callback=)/cells unchanged", mesh.cells, C0)
+        # nothing but the callback: still called (once, with the mesh), the mesh stays as it is
+        log.clear()
+        s1 = snap(vk, mesh)
+        mesh.update(callback=cb)
+        ensures_same(vk, "update(callback= only)/called exactly once with the mesh", (len(log), bool(log) and log[0]["arg"] is mesh), (1, True))
+        frame(vk, "update(callback= only)", mesh, s1)
+        ensures_same(vk, "update(callback= only)/cell_type,npoints,ncells unchanged", (mesh.cell_type, mesh.npoints, mesh.ncells), (ct + "-renamed", n + 1, len(C0)))
+        # explicit callback=None: nothing is called, the update is done
+        log.clear()
+        mesh.update(cell_type=ct, callback=None)
+        ensures_same(vk, "update(callback=None)/nothing called, update done", (len(log), mesh.cell_type), (0, ct))
+        vk.canary_bool("the callback sees the mesh before the update", not (bool(log) and log[0]["npoints"] == n))
+        return
+    vk.real(DG.DiscreteGeometry.copy)
+    one = C0[:1].copy()
+    c = mesh.copy(cells=one, cell_type=ct + "-renamed")
+    ensures_same(vk, "copy(cells=, cell_type=)/a new object of the same class", (type(c) is type(mesh), c is not mesh), (True, True))
+    ensures_same(vk, "copy(cells=, cell_type=)/cells and cell type are the given ones", (c.cells, c.cell_type), (one, ct + "-renamed"))
+    vk.ensures_eq("copy(cells=, cell_type=)/points==points of the original", c.points, P0)
+    unused = sorted(set(range(n)) - set(ids(one)))
+    ensures_same(vk, "copy(cells=, cell_type=)/bookkeeping of the copy (sizes, points without / with cells)", (c.npoints, c.ncells, ids(c.points_without_cells), ids(c.points_with_cells)), (n, 1, unused, sorted(set(ids(one)))))
+    ensures_same(vk, "copy(cells=, cell_type=)/nothing shared with the original", (c.points is mesh.points or np.shares_memory(c.points, mesh.points), c.cells is mesh.cells), (False, False))
+    frame(vk, "copy(cells=, cell_type=)/original", mesh, (P0, C0))
+    ensures_same(vk, "copy(cells=, cell_type=)/original bookkeeping untouched", (mesh.cell_type, mesh.ncells, ids(mesh.points_without_cells)), (ct, len(C0), []))
+    # deep: writing into the copy's arrays leaves the original alone
+    c.points[0, 0] = c.points[0, 0] + 1
+    frame(vk, "copy/write into the copy's points/original", mesh, (P0, C0))
+    # one option at a time
+    c2 = mesh.copy(cell_type=ct + "-only-renamed")
+    ensures_same(vk, "copy(cell_type=)/cell type given, cells of the original", (c2.cell_type, c2.cells, c2.ncells), (ct + "-only-renamed", C0, len(C0)))
+    vk.ensures_eq("copy(cell_type=)/points", c2.points, P0)
+    rev = C0[::-1].copy()
+    c3 = mesh.copy(cells=rev)
+    ensures_same(vk, "copy(cells=)/cells given, cell type of the original", (c3.cells, c3.cell_type, ids(c3.points_without_cells)), (rev, ct, []))
+    vk.ensures_eq("copy(cells=)/volumes are those of the re-ordered cells", vols(c3), vols(mesh)[::-1])
+    vk.canary("copy(cells=first cell) keeps all cells", np.asarray(vols(c)).sum() + 0 * P0[0, 0], np.asarray(vols(mesh)).sum() + 0 * P0[0, 0])
